@@ -91,7 +91,7 @@ func init() {
 		ID:    "C14",
 		Level: "exploration",
 		Rule: "operation sequences of (hset h k v) (fresh v each time) and (hdel h k) over a universe of 10 key spellings (symbols a b, strings \"a\" \"b\", ints 1 2, the one-element array [1] (= key 1), char 'x', an int equal to (symnum a) and an int equal to the hash code of \"a\", i.e. unequal keys sharing a bucket): exhaustively all sequences of length <=3 (quick) / <=4 (thorough) over the 20 operations, all sequences of length <=4 / <=5 over a sub-universe, plus 500 / 20000 random sequences of length 30 observed after every step. " +
-			"After the last step (every prefix is itself an enumerated sequence) the monitor reads (len h), (keys h), (hpair h i) for every i, (hget h k) and (hget h k dflt) for every k of the universe, (str h), (json h), the range macro and the go-style for k, v := range h, and compares all of them with an ordered-map model (live keys once each in first-insertion order, latest values). Any error or panic text from an observation is a violation. non-trivial = distinct sequence containing a delete of a present key or an update of an existing key",
+			"After the last step (every prefix is itself an enumerated sequence) the monitor reads (len h), (keys h), (hpair h i) for every i, (hget h k) and (hget h k dflt) for every k of the universe, (str h), (json h), the range macro and the go-style for k, v := range h, and compares all of them with an ordered-map model (live keys once each in first-insertion order, latest values); (str h) and (json h) must also be exactly those of a hash built afresh from the model's content. Any error or panic text from an observation is a violation. non-trivial = distinct sequence containing a delete of a present key or an update of an existing key",
 		Assumptions: []string{
 			"key identity follows the language: [k] is k; the universe contains no int equal to a char code and no float keys",
 			"(hpair h (len h)) may fail with any error; the JSON text is only checked for the order of the values it lists (well-formedness is C11's subject)",
@@ -289,6 +289,26 @@ func c14Observe(res *core.Result, s *SutRun, keys []c14key, order []string, vals
 	}
 	if got := ev("(raw2str (json h))"); strings.HasPrefix(got, "ERR") || strings.HasPrefix(got, "PANIC") || seqOf(got) != wantSeq {
 		return bad("json", fmt.Sprintf("(json h) must list the values %s in this order, got %s", wantSeq, core.Trunc(got, 300)))
+	}
+	// the printed form and the encoding must be exactly those of a hash built afresh from the model's
+	// content (live keys in first-insertion order, latest values): nothing of the history may show
+	{
+		build := "(def hfresh (hash))"
+		for _, cn := range order {
+			for _, k := range keys {
+				if k.canon == cn {
+					build += fmt.Sprintf(" (hset hfresh %s %d)", k.src, vals[cn])
+					break
+				}
+			}
+		}
+		ev(build)
+		if a, b := ev("(str h)"), ev("(str hfresh)"); a != b {
+			return bad("str-differs-from-fresh-hash", fmt.Sprintf("(str h) is %s but a hash built afresh with the same content prints as %s", core.Trunc(a, 300), core.Trunc(b, 300)))
+		}
+		if a, b := ev("(raw2str (json h))"), ev("(raw2str (json hfresh))"); a != b {
+			return bad("json-differs-from-fresh-hash", fmt.Sprintf("(json h) is %s but a hash built afresh with the same content encodes as %s", core.Trunc(a, 300), core.Trunc(b, 300)))
+		}
 	}
 	s.Trace = nil
 	if got := ev("(range k v h (tr 1 v))"); strings.HasPrefix(got, "ERR") || strings.HasPrefix(got, "PANIC") || seqOf(strings.Join(s.Trace, " ")) != wantSeq {
